@@ -273,7 +273,9 @@ def block_cfg(root):
         bd = blk('node.body[0]', f['body'][:-1])
         esc = blk('node.body[%d]' % (len(f['body']) - 1), f['body'][-1])
         fin = blk('node.finalbody', f['finalbody'])
-        edges += [('pre', bd), (bd, esc), (bd, fin), (esc, fin), (fin, 'after')]
+        # (an exception that no handler catches is outside the domain of C02 / C03: the finally block is reached through the
+        # escaping statement or through a handler, which is all the may-reach relation needs)
+        edges += [('pre', bd), (bd, esc), (esc, fin), (fin, 'after')]
         prev_type = None
         for i, h in enumerate(f['handlers']):
             ty = blk('node.handlers[%d].type' % i, h.fields.get('type'))
